@@ -35,8 +35,9 @@ func runC12(c *Ctx) {
 
 	// ---------------------------------------------------------------- R1
 	c.rule("R1", "rule side and query side normalise identically; regexps are compiled as written; patterns reach sub-matchers unchanged", 9)
-	onlyThroughNorm := func(f *ssa.Function) (bool, string) {
-		s := f.Params[1]
+	var throughNorm func(s *ssa.Parameter, depth int) (bool, string)
+	onlyThroughNorm := func(f *ssa.Function) (bool, string) { return throughNorm(f.Params[1], 0) }
+	throughNorm = func(s *ssa.Parameter, depth int) (bool, string) {
 		n := 0
 		for _, r := range referrers(s) {
 			switch x := r.(type) {
@@ -45,6 +46,22 @@ func runC12(c *Ctx) {
 				if staticCallee(x) == norm {
 					n++
 					continue
+				}
+				// a NEW helper that itself uses the string only through NormalizeDomain
+				if h := x.Call.StaticCallee(); isNewHelper(h) && depth < 2 && len(h.Params) == len(x.Call.Args) {
+					okAll, any := true, false
+					for i, a := range x.Call.Args {
+						if a == ssa.Value(s) {
+							any = true
+							if ok, _ := throughNorm(h.Params[i], depth+1); !ok {
+								okAll = false
+							}
+						}
+					}
+					if any && okAll {
+						n++
+						continue
+					}
 				}
 				return false, "the raw string is passed to " + callName(x)
 			default:
@@ -152,7 +169,7 @@ func runC12(c *Ctx) {
 	c.rule("R2", "domain rules and names are tokenised by the same reverse label scanner, separator '.' only", 3)
 	scanUse := func(f *ssa.Function) bool {
 		newScan, scan, label := false, false, false
-		eachInstr(f, func(in ssa.Instruction) {
+		eachInstrDeep(f, func(_ *ssa.Function, in ssa.Instruction) {
 			ci, ok := in.(*ssa.Call)
 			if !ok {
 				return
